@@ -32,12 +32,12 @@ func init() {
 		Rule:        "cases = every leg of seeded random walks (all 23 functions, adversarial calls included) and of the scenario library, executed three times on equal states: on the walk's own container, on a reused twin container in another goroutine after an unrelated call on the same function objects, and on a freshly built container; oracle: byte-identical Canonical(VMOutput) ‖ error presence ‖ Canonical(world); input deep-compared after every call (arguments laid out in one backing array with sentinel-filled spare capacity); hidden-state hook: every []byte field of the function objects keeps content, length, capacity and spare backing memory. Thorough also runs under the race detector. Non-trivial = committed leg; distinct = (function, side, outcome) and world digests",
 		Assumptions: commonAssumptions,
 		Batches:     tierN(8, 16),
-		Floors:      map[string]int64{"C13/replayed-legs": 5000, "C13/committed-replayed:*": 1500, "C13/prefix-fields-observed": 10},
+		Floors:      map[string]int64{"C13/replayed-legs": 5000, "C13/committed-replayed:*": 1500, "C13/prefix-fields-observed": 10, "C13/configuration-path-checks": 150},
 		Run:         runC13,
 	})
 	harness.Register(&harness.Property{
 		ID: "C15", Level: "exploration",
-		Rule:        "cases = long seeded random walks (well-formedness scan of every account changed by every leg + full scan at the end) and EVERY sequence of depth <= 3 (quick) / 4 (thorough) over 34 operation templates on a 2-shard, 3-account, 2-token universe (exhaustive over that bounded space); oracle: every protocol entry decodes (reference codec), balance > 0 or entry absent (zero only with the frozen bit), fungible entries without metadata, NFT entries with metadata nonce = key nonce, key layouts, no duplicate roles and counter >= highest issued nonce under system-contract discipline. Non-trivial = committed leg; distinct = reachable world digests",
+		Rule:        "cases = long seeded random walks (well-formedness scan of every account changed by every leg + full scan at the end) and EVERY sequence of depth <= 3 (quick) / 4 (thorough) over 39 operation templates on a 2-shard, 3-account, 2-token universe (exhaustive over that bounded space); oracle: every protocol entry decodes (reference codec), balance > 0 or entry absent (zero only with the frozen bit), fungible entries without metadata, NFT entries with metadata nonce = key nonce, key layouts, no duplicate roles and counter >= highest issued nonce under system-contract discipline. Non-trivial = committed leg; distinct = reachable world digests",
 		Assumptions: commonAssumptions,
 		Batches:     tierN(16, 32),
 		Floors:      map[string]int64{"C15/token-entry-checked": 20000, "C15/role-entry-checked": 5000, "C15/enum-sequences": 30000},
@@ -106,10 +106,12 @@ func runC11(c *harness.Ctx) {
 				args = args[:nargs]
 				l := s.U.N.Exec(node.Call{Func: FMulti, Caller: s.A, Recipient: s.A, Args: args, Gas: gen.BigGas})
 				onLeg(s.U, s.M, l)
+				// with all the gas there is (the product count x cost wraps as well)
+				onLeg(s.U, s.M, s.U.N.Exec(node.Call{Func: FMulti, Caller: s.A, Recipient: s.A, Args: args, Gas: ^uint64(0)}))
 				// count wider than 64 bits with the same low word
 				args2 := append([][]byte{}, args...)
 				args2[1] = append([]byte{7}, gen.U64(n)...)
-				onLeg(s.U, s.M, s.U.N.Exec(node.Call{Func: FMulti, Caller: s.A, Recipient: s.A, Args: args2, Gas: gen.BigGas}))
+				onLeg(s.U, s.M, s.U.N.Exec(node.Call{Func: FMulti, Caller: s.A, Recipient: s.A, Args: args2, Gas: ^uint64(0)}))
 				drain(s.U.N)
 				R.Cover("C11/directed-residue-cases")
 			}
@@ -305,6 +307,38 @@ func runC13(c *harness.Ctx) {
 			}
 			R.Cover("C13/scenario-repeats")
 		}
+		// equal configuration reached along different paths: a container built with schedule S0 and
+		// then changed to S' must behave like a container built with S' directly; likewise for
+		// epoch notification histories ending in the same epoch
+		S0 := world.GasMapFrom(gasSchedules[0])
+		for v := 0; v < 3; v++ {
+			S1 := world.CloneGasMap(S0)
+			for sec, m := range S1 {
+				for k := range m {
+					if v == 2 || (v == 0 && sec == vmcommon.BaseOperationCostString) || (v == 1 && sec == vmcommon.BuiltInCostString) {
+						m[k] = m[k]*3 + 11
+					}
+				}
+			}
+			sa := NewScn(c.Rand("scn").Fork(harness.Hash64(sc.Name)), R, ScnOpts{Shards: sc.Shards, GasMap: S0, Enabled: []string{"C13"}})
+			sa.U.W.ConfirmEpoch(1)
+			sa.U.W.GasScheduleChange(S1)
+			sa.U.W.ConfirmEpoch(7)
+			sa.U.W.ConfirmEpoch(5)
+			la := sc.Exec(sa, gen.BigGas)
+			sb := NewScn(c.Rand("scn").Fork(harness.Hash64(sc.Name)), R, ScnOpts{Shards: sc.Shards, GasMap: S1, Enabled: []string{"C13"}})
+			sb.U.W.ConfirmEpoch(5)
+			lb := sc.Exec(sb, gen.BigGas)
+			if la == nil || lb == nil {
+				continue
+			}
+			ra := canonOutput(la.Out, la.Err) + "||" + string(sa.U.W.Canonical())
+			rb := canonOutput(lb.Out, lb.Err) + "||" + string(sb.U.W.Canonical())
+			if ra != rb {
+				sa.M.viol("C13", "configuration-path-dependent:"+sc.Func, fmt.Sprintf("scenario %s: a container that was built with one schedule and then switched to another (variant %d) behaves differently from a container built with that schedule: %s", sc.Name, v, truncate(diffAt(ra, rb), 600)), la)
+			}
+			R.Cover("C13/configuration-path-checks")
+		}
 	}
 }
 
@@ -443,6 +477,23 @@ func enumOps() []enumOp {
 			}
 		}},
 		{"unsetrole A mint+burn", func(s *Scn, _ map[string][]byte) { s.U.UnsetRoles(s.A, s.F1, RoleMint, RoleBurn) }},
+		{"setrole A burn", func(s *Scn, _ map[string][]byte) {
+			if !s.M.S.HasRole(s.A, s.F1, RoleBurn) {
+				s.U.SetRoles(s.A, s.F1, RoleBurn)
+			}
+		}},
+		{"setrole A mint+burn+x", func(s *Scn, _ map[string][]byte) {
+			var rs []string
+			for _, r := range []string{RoleMint, RoleBurn, RoleNFTBurn} {
+				if !s.M.S.HasRole(s.A, s.F1, r) {
+					rs = append(rs, r)
+				}
+			}
+			if len(rs) > 0 {
+				s.U.SetRoles(s.A, s.F1, rs...)
+			}
+		}},
+		{"unsetrole S addqty+burn", func(s *Scn, _ map[string][]byte) { s.U.UnsetRoles(s.A, s.SFT, RoleAddQty, RoleNFTBurn) }},
 	}
 }
 
